@@ -19,8 +19,11 @@ TNew == IsEvent("new") /\ New(Rec[l].maxf, Rec[l].thr, Rec[l].basic)
 TMeas == IsEvent("meas") /\ Measurement
 TFreq == IsEvent("freq") /\ Freq(Rec[l].fin, Rec[l].mag)
 TStep == IsEvent("step") /\ Step(Rec[l].fin, Rec[l].mag)
+\* the filter update timer fired (Filter::update): no life cycle change; whatever it commands obeys the same guards - in particular
+\* nothing may be commanded by a filter that has not seen a measurement yet (a fresh filter installed after the port left SLAVE)
+TUpd == IsEvent("upd") /\ UNCHANGED svars
 TDemob == IsEvent("demob") /\ Demobilize
-TNext == TNew \/ TMeas \/ TFreq \/ TStep \/ TDemob
+TNext == TNew \/ TMeas \/ TFreq \/ TStep \/ TUpd \/ TDemob
 TSpec == TInit /\ [][TNext]_tvars
 
 Accepted == IF TLCGet("stats").diameter - 1 = Len(Rec) THEN TRUE
